@@ -846,7 +846,7 @@ fn main() {
 
     // ---- part 1
     let budget = Duration::from_secs(
-        std::env::var("C41_BUDGET_S").ok().and_then(|s| s.parse().ok()).unwrap_or(ctx.tier.pick(45, 780)),
+        std::env::var("C41_BUDGET_S").ok().and_then(|s| s.parse().ok()).unwrap_or(ctx.tier.pick(55, 780)),
     );
     let deadline = Instant::now() + budget;
     let mut per_cfg = vec![];
